@@ -16,6 +16,22 @@ def gen_cases_for(seed_, n):
         samples = sch.samples(n=rng.choice([2, 2, 3, 3, 4, 5]))
         opts = gen.options(rng, samples, frameworks=["dataclasses"])
         opts.update(framework="dataclasses", meta=True, max_literals=17, flat=True, post_init_converters=False)
+        if i % 6 == 5:
+            # literal-set boundary: a field whose distinct plain strings number exactly 14 / 15 / 16 over the samples, with repeats
+            k = rng.choice([14, 15, 15, 15, 16])
+            vals = [f"v{j}" for j in range(k)]
+            rng.shuffle(vals)
+            ns = rng.choice([2, 3, 4])
+            cuts = sorted(rng.sample(range(1, k), ns - 1))
+            parts = [vals[a:b] for a, b in zip([0] + cuts, cuts + [k])]
+            shape = rng.choice(["list", "scalar"])
+            if shape == "list":
+                samples = [{"colour": part + ([part[0]] if rng.random() < 0.5 else []), "n": j} for j, part in enumerate(parts)]
+            else:
+                samples = [{"colour": v, "n": 1} for v in vals[:5]]
+                samples[0]["others"] = [{"colour": v} for v in vals[5:]]
+            samples = samples[:5]
+            opts["merge"] = [["exact"]]
         cases.append({"i": i, "models": [["Root", samples]], "opts": opts, "vseed": rng.randrange(1 << 30)})
     return cases
 
